@@ -217,6 +217,7 @@ def oracle(ctx):
                     ctx.fail("oracle", "solvegrad:unused-nonzero", info, raw[-1], "None or zero")
     backward_options_probe(ctx)
     operator_reuse_probe(ctx)
+    operator_history_probe(ctx)
 
 
 def operator_reuse_probe(ctx):
@@ -258,6 +259,71 @@ def operator_reuse_probe(ctx):
             elif not torch.allclose(X2.detach(), X1.detach() / 2, rtol=1e-8, atol=1e-10):
                 ctx.fail("oracle", "solvegrad:operator-reuse-stale", info, float((X2.detach() - X1.detach() / 2).abs().max()),
                          "the second solve uses the updated leaf")
+
+
+def operator_history_probe(ctx):
+    """one operator object used for a SEQUENCE of solves and backward passes of mixed order: every gradient equals the dense
+    reference whatever ran before on that object (seeded C02/8: the adjoint operator built for the first backward was cached
+    in the operator and carried its graph / its values into later calls)"""
+    import xitorch as xt
+    from xitorch.linalg import solve
+
+    class MV2(xt.LinearOperator):
+        def __init__(self, m):
+            super().__init__(shape=m.shape, is_hermitian=False, dtype=m.dtype, device=m.device)
+            self.m = m
+
+        def _mv(self, x):
+            return torch.matmul(self.m, x.unsqueeze(-1)).squeeze(-1)
+
+        def _getparamnames(self, prefix=""):
+            return [prefix + "m"]
+    rng = ctx.rng
+    g = torch.Generator().manual_seed(ctx.seed + 97)
+    n, nc = 4, 2
+    for kind in ("dense", "matrix-free", "dense+dense"):
+        for meth in ("custom_exactsolve", "bicgstab"):
+            M0 = (0.3 * torch.rand(n, n, dtype=torch.float64, generator=g) + 2 * torch.eye(n, dtype=torch.float64)).requires_grad_()
+            if kind == "dense":
+                op, dense = xt.LinearOperator.m(M0, is_hermitian=False), (lambda: M0)
+            elif kind == "matrix-free":
+                op, dense = MV2(M0), (lambda: M0)
+            else:
+                M1 = 0.2 * torch.rand(n, n, dtype=torch.float64, generator=g)
+                op, dense = xt.LinearOperator.m(M0, is_hermitian=False) + xt.LinearOperator.m(M1, is_hermitian=False), (lambda: M0 + M1)
+            kw = dict(method=meth, bck_options=dict(method=meth))
+            if meth != "custom_exactsolve":
+                kw.update(rtol=1e-13, atol=1e-15)
+                kw["bck_options"].update(rtol=1e-13, atol=1e-15)
+            orders = [rng.choice([1, 2]) for _ in range(ctx.n(3, 6))]
+            if 2 not in orders[1:]:
+                orders[-1] = 2
+            for step, order in enumerate(orders):
+                Bv = torch.rand(n, nc, dtype=torch.float64, generator=g).requires_grad_()
+                cot = torch.rand(n, nc, dtype=torch.float64, generator=g)
+                cot2 = torch.rand(n, n, dtype=torch.float64, generator=g)
+
+                def grads(xf):
+                    gA, = torch.autograd.grad((xf() * cot).sum(), M0, create_graph=order == 2)
+                    if order == 1:
+                        return (gA,)
+                    return (gA.detach(),) + tuple(torch.autograd.grad((gA * cot2).sum(), (M0, Bv)))
+                info = {"operator": kind, "method": meth, "orders_so_far": orders[:step + 1]}
+                try:
+                    with warnings.catch_warnings():
+                        warnings.simplefilter("ignore")
+                        got = grads(lambda: solve(op, Bv, **kw))
+                except Exception as e:
+                    ctx.fail("oracle", "solvegrad:operator-history:exception", info, repr(e)[:200], "gradients")
+                    break
+                ref = grads(lambda: torch.linalg.solve(dense(), Bv))
+                ctx.count(("operator-history", kind, meth, tuple(orders[:step + 1])), nontrivial=True)
+                tol = 1e-8 if meth == "custom_exactsolve" else 1e-6
+                bad = [i for i, (a, r) in enumerate(zip(got, ref)) if not (a - r).abs().max() <= tol * (1 + r.abs().max())]
+                if bad:
+                    ctx.fail("oracle", "solvegrad:operator-history:%s" % ("first-order" if bad[0] == 0 else "second-order"), info,
+                             {"max_diff": [float((a - r).abs().max()) for a, r in zip(got, ref)]}, "the dense reference, whatever ran before")
+                    break
 
 
 def backward_options_probe(ctx):
